@@ -562,10 +562,29 @@ def c01_r3(ctx):
                 ctx.viol((cc.fn.id, "remembered-not-lookup"), "targets are resolved against something other than the history lookup result (%s)" % sorted(map(fmt_origin, vo)), cc.where)
             else:
                 # dominated by the Some edge of that lookup
+                g = cc.fn
+                hit = set()
                 for o in vo:
-                    lk = cc.fn.call_at[o[0][2]]
-                    if not cc.fn.dominated_by_edges(cc.bb, cc.fn.edges_of_call_variant(lk, "Some")):
-                        ctx.viol((cc.fn.id, "remembered-unguarded"), "resolution against a lookup that may have missed", cc.where)
+                    hit |= g.edges_of_call_variant(g.call_at[o[0][2]], "Some")
+
+                def from_lookups(o):
+                    """an Option that is a lookup's result, or Some(payload of one) / None built from them"""
+                    if is_call(o) and o[0][3] in (HIST_GET, DL_GET) and len(o) == 1:
+                        return True
+                    if o[0][0] == "agg" and len(o) == 1 and o[0][4] == "std::option::Option::None":
+                        return True
+                    if o[0][0] == "agg" and len(o) == 1 and o[0][4] == "std::option::Option::Some":
+                        rv2 = g.blocks[o[0][2]]["stmts"][o[0][3]]["rv"]
+                        po = g.origins_of_operand(rv2["ops"][0])
+                        return bool(po) and po <= vo
+                    return False
+                for bb2 in g.live:
+                    info = g.switch_info(bb2)
+                    if info and info["kind"] == "variant" and info.get("adt") == "std::option::Option" and info.get("origins") \
+                            and all(from_lookups(o) for o in info["origins"]):
+                        hit |= g.edges_variant(lambda i2, nm, oth, rest: i2 is info and nm == "Some")
+                if not g.dominated_by_edges(cc.bb, hit):
+                    ctx.viol((cc.fn.id, "remembered-unguarded"), "resolution against a lookup that may have missed", cc.where)
                 ctx.ok()
         ctx.ok()
 
